@@ -66,7 +66,8 @@ def one(rel):
     finally:
         sh('git -C /repo worktree remove --force %s' % wt)
 
-rels = sorted(os.path.relpath(os.path.dirname(p), SRC) for p in __import__('glob').glob(os.path.join(SRC, '*', '*', 'patch.diff')))
+rels = sorted(os.path.relpath(os.path.dirname(p), SRC) for p in __import__('glob').glob(os.path.join(SRC, '*', '*', 'patch.diff'))
+              if os.path.exists(os.path.join(os.path.dirname(p), 'demo.py')))      # (directories with an equiv.py are benign refactorings: collect_benign.py)
 if ONLY:
     rels = [r for r in rels if any(r == o or r.startswith(o + '/') for o in ONLY)]
 with ThreadPoolExecutor(8) as ex:
